@@ -1,0 +1,14 @@
+//go:build verif
+
+package lifecycle
+
+// VerifYield, when set by the verification harness before any StartStop is used, is called at
+// the points between the critical sections and blocking receives of Stop(). It lets a test
+// controller choose the interleaving. It is compiled only with the build tag "verif".
+var VerifYield func(l *StartStop, point string)
+
+func verifYield(l *StartStop, point string) {
+	if f := VerifYield; f != nil {
+		f(l, point)
+	}
+}
